@@ -564,7 +564,8 @@ def add_biases(rnd, req, names=None, length=None, prob_mix=True, disabled_prob=0
 
 
 def biased_request(rnd, method=None, names=None, length=None, prob_mix=True):
-    req = any_request(rnd, method)
+    # now and then more alternatives than any small-list threshold inside the code (33-92): the biases work on every known alternative
+    req = many_alternatives_request(rnd, method) if rnd.random() < 0.03 else any_request(rnd, method)
     if rnd.random() < 0.1 and req['criteria']:
         # a criterion on which all known alternatives agree and that declares no range: its observed range has width zero
         c = rnd.choice(req['criteria'])
